@@ -990,6 +990,33 @@ pub fn generate(ctx: &mut Ctx) {
         let inner: F = vec![(0..k.min(40)).map(|_| two()).collect()];
         ctx.case("rt:siblings", &format!("rt {}", show_f(&nest(inner, 60))));
     }
+    // look-alikes, one after the other in the same process: filters that differ only INSIDE a literal (runs of blanks,
+    // blanks at the ends, letter case, a character that some normalisation would fold) - whatever is kept between two
+    // parses (a cache keyed by a normalised text, an interner) must not hand the earlier tree to the later text
+    let variants: Vec<Vec<&str>> = vec![
+        vec!["Room 101", "Room  101", "Room   101", "Room 101 ", " Room 101", "room 101", "ROOM 101", "Room\u{a0}101", "Room-101", "Room 1O1"],
+        vec!["a  b", "a b", "ab", "a b ", "A B"],
+        vec!["", " ", "  "],
+    ];
+    for fam in &variants {
+        for order in 0..2 {
+            let mut texts: Vec<&str> = fam.clone();
+            if order == 1 {
+                texts.reverse();
+            }
+            for t in texts {
+                let lits: Vec<Value> = vec![
+                    Value::make_str(t),
+                    Value::make_uri(&format!("http://x/{t}")),
+                    Value::Ref(Ref { value: "r1".into(), dis: Some(t.to_string()) }),
+                ];
+                for l in lits {
+                    let f: F = vec![vec![T::Cmp("eq".into(), vec!["dis".into()], l), T::Has(vec!["site".into()])]];
+                    ctx.case("rt:lookalike", &format!("rt {}", show_f(&f)));
+                }
+            }
+        }
+    }
     // random well-formed trees: round trip, visitor, spelling
     let n = ctx.n(2500, 300_000);
     for _ in 0..n {
